@@ -564,7 +564,8 @@ def rule_W_STAT(ctx, d, paths):
         raise AnalysisError('%s: cannot resolve the statistics vector through info()' % d.qual)
     nocache = pinned_maxsize(d) == 0
     for o in paths:
-        stats = [(i, e) for i, e in ev_of(o, 'STAT', 'STATSET', 'STATRESET')]
+        # the statistics are the vector info() reports; another counter cell of the closure (an evictions count with an accessor of its own) is not part of them
+        stats = [(i, e) for i, e in ev_of(o, 'STAT', 'STATSET', 'STATRESET') if not (e.kind == 'STAT' and e.args and is_bk(e.args[0]) and e.args[0] != d.stats)]
         if o.kind == RAISE:
             if any(e.kind == 'EVALRAISE' for e in o.st.events):
                 ok = not stats
@@ -723,7 +724,8 @@ def rule_W_CLEAR(ctx, d):
             good_reset = elem0[:1]
         else:
             elem0 = []
-        other = [e for e in evs if e.kind in ('STAT', 'STATSET') and e not in elem0] + [e for e in resets if e not in good_reset]
+        other = [e for e in evs if e.kind in ('STAT', 'STATSET') and e not in elem0 and not (e.args and is_bk(e.args[0]) and e.args[0] != d.stats)] \
+            + [e for e in resets if e not in good_reset]       # (a counter cell that info() does not report is not one of the statistics)
         # truth of keepstats on this path
         kt = o.st.facts.get('truth', {}).get(keep) if keep else None
         if kt is True:
@@ -1043,7 +1045,9 @@ def rule_W_WRITERS(ctx, d):
     allowed = {}
     for k, (v, line) in d.iface.items():
         if v[0] == 'closure':
-            allowed[v] = k
+            # one closure attached under two names (wrapper.cache_clear = clear next to wrapper.clear = clear) has the role of its interface name
+            if v not in allowed or (k in IFACE and allowed[v] not in IFACE):
+                allowed[v] = k
     used_by_wrapper = set()
     for fn in [d.wrapper_node] + [d.closure_node(v) for v in allowed if d.closure_node(v) is not None]:
         for n in ast.walk(fn):
@@ -2034,3 +2038,48 @@ def rule_W_ALIAS(ctx, d):
                      'still used: after the first rebinding, uses recorded through the shortcuts go to the old container and whatever reads `%s` sees the new one - '
                      'the eviction order no longer follows the recorded uses' % (fname, base, ', '.join(live), base), where(d, line))
     ctx.ob('W-BK', '%s: bound-method shortcuts examined' % d.name, True, n=n_alias)
+
+
+def rule_W_SIBLING_INIT(ctx, repo):
+    """W-STATE (the two decorator modules treat their arguments alike).  klepto.safe mirrors klepto._cache class for class; the constructors differ in the
+    default keymap only.  What is done to `cache=` before it is stored - wrap a plain dict into an archive-backed cache, take anything else as it is - is
+    decided by the same tests in both modules: `not isinstance(cache, archive_dict)` in one of them copies a bare persistent archive (a dict subclass
+    that is its own store) into a fresh in-memory cache over a null archive, and nothing the function computes reaches the store any more."""
+    a, b = repo.mod('_cache'), repo.mod('safe')
+    n = 0
+
+    def tests_of(ci, name):
+        init = ci.methods.get('__init__')
+        if init is None:
+            return None
+        out = []
+        # ... in the constructor itself or in a module-level helper it hands its arguments to (`self.__state__ = _state(maxsize, cache, ...)`)
+        nodes = [init.node] + [ci.module.functions[c.func.id].node for c in ast.walk(init.node)
+                               if isinstance(c, ast.Call) and isinstance(c.func, ast.Name) and c.func.id in ci.module.functions]
+        for x in [y for nd in nodes for y in ast.walk(nd)]:
+            if isinstance(x, ast.If):
+                arms = [(x.test, x.body)]
+                for test, body in arms:
+                    if any(isinstance(st, ast.Assign) and any(isinstance(t, ast.Name) and t.id == name for t in st.targets) for st in body):
+                        out.append(' '.join(unparse(test).split()))
+        return sorted(out)
+    for cname, ca in sorted(a.classes_by_name.items()):
+        if cname not in b.classes_by_name or not cname.endswith('_cache'):
+            continue
+        ca, cb = ca[0], b.classes_by_name[cname][0]
+        for pname in ('cache', 'ignore'):
+            ta, tb = tests_of(ca, pname), tests_of(cb, pname)
+            if ta is None or tb is None:
+                continue
+            n += 1
+            ok = ta == tb
+            ctx.ob('W-STATE', '%s: _cache and safe normalise `%s` under the same tests' % (cname, pname), ok)
+            if not ok:
+                odd = sorted(set(tb) - set(ta)) or sorted(set(ta) - set(tb))
+                ctx.fail('W-STATE', cb.methods['__init__'].qual if set(tb) - set(ta) else ca.methods['__init__'].qual, '`%s` normalised differently in the two modules' % pname,
+                         'klepto.safe.%s and klepto._cache.%s decide differently what to do with `%s=` (`%s` in one module only): the same argument - e.g. a bare '
+                         'persistent archive used directly as the cache - is stored as given by one and replaced (copied into a fresh in-memory cache over a null archive) '
+                         'by the other, so nothing computed through that decorator reaches the archive' % (cname, cname, pname, odd[0] if odd else ''),
+                         '%s:%d' % ((b if set(tb) - set(ta) else a).rel, (cb if set(tb) - set(ta) else ca).methods['__init__'].node.lineno))
+    if n < 6:
+        raise AnalysisError('instance count below confirmed minimum: %d constructor pairs compared between _cache.py and safe.py' % n)
